@@ -88,7 +88,7 @@ func (e *Explorer) violationSeen(site string) int {
 }
 
 func NewHarnessCfg(name string, doc map[string]string, tier string) *HarnessCfg {
-	cfg := &HarnessCfg{Name: name, Tier: tier, Unwind: 16, MaxSteps: 2000000, MaxVisOps: 60, Preempt: 2, Opts: doc}
+	cfg := &HarnessCfg{Name: name, Tier: tier, Unwind: 16, MaxSteps: 400000, MaxVisOps: 60, Preempt: 2, Opts: doc}
 	geti := func(k string, def int) int {
 		v, ok := doc[k+"."+tier]
 		if !ok {
@@ -256,6 +256,11 @@ func (e *Explorer) merge(r *PathResult) {
 	}
 	if e.Verbose {
 		fmt.Fprintf(os.Stderr, "  path %d: end=%d %s decisions=%d steps=%d viol=%d\n", R.Paths, r.End.kind, r.End.msg, len(r.Decisions), r.Steps, len(r.Violations))
+		if os.Getenv("SV_LABELS") != "" {
+			for _, d := range r.Decisions {
+				fmt.Fprintf(os.Stderr, "      %d/%d %s\n", d.Pick, d.N, d.Lbl)
+			}
+		}
 	}
 }
 
